@@ -1265,9 +1265,21 @@ let rec scalars_of_event (e : event) : scalar list =
   | EXArr (_, l) -> l
   | EXObj (_, ms) -> List.map snd ms
   | _ -> []
-let risky_float (evs : event list) : bool =
+(* the integer kinds a target type can store a number in *)
+let rec int_kinds (t : gtype) : nkind list =
+  match t with
+  | TNum (KFloat32 | KFloat64) -> []
+  | TNum k -> [ k ]
+  | TPtr u | TSlice u | TArray (_, u) | TMap u | TMapK u | TNamed u -> int_kinds u
+  | TStruct fs -> List.concat_map (fun (_, ft) -> int_kinds ft) fs
+  | _ -> []
+(* some float of the stream is outside the range of some integer kind of the target: Go leaves the
+   result of that conversion to the implementation, so the case is not compared *)
+let risky_float_for (t : gtype) (evs : event list) : bool =
+  let ks = List.sort_uniq compare (int_kinds t) in
+  ks <> [] &&
   List.exists (fun e -> List.exists (function
-      | SNum ((KFloat32 | KFloat64) as k, z) -> not (conv_defined k KInt8 z)
+      | SNum ((KFloat32 | KFloat64) as k, z) -> List.exists (fun dst -> not (conv_defined k dst z)) ks
       | _ -> false) (scalars_of_event e)) evs
 
 (* ---- unfold cases ---- *)
@@ -1299,7 +1311,7 @@ let unfold_case (input : string) (obs0 : string) : verdict =
            if impl <> want then
              oracle := ("C13", "interface{} target does not hold the stream's value: want " ^ want) :: !oracle
        | _ -> ());
-      let model = if risky_float evs && has_int_kind t && impl <> "PANIC" && impl <> "HANG" then impl else model in
+      let model = if risky_float_for t evs && impl <> "PANIC" && impl <> "HANG" then impl else model in
       { model = (match depth with Some d -> model ^ " D " ^ d | None -> model); oracle = !oracle }
   | _ -> failwith "unfold: bad input"
 
@@ -1428,7 +1440,7 @@ let histunf_case (input : string) (obs0 : string) : verdict =
              | _ -> oracle in
            (* the key cache must be transparent: with it enabled nothing may differ from the model, which ignores it *)
            let cache_on = match words (List.hd segs) with _ :: c :: _ -> (try int_of_string c >= 0 with _ -> false) | _ -> false in
-           let model = if risky_float evs && has_int_kind t && impl <> "PANIC" && impl <> "HANG" then impl else model in
+           let model = if risky_float_for t evs && impl <> "PANIC" && impl <> "HANG" then impl else model in
            let oracle = if cache_on && impl <> model then ("C20", "with the key cache enabled the unfolder's result differs: " ^ impl) :: oracle else oracle in
            { model = (match depth with Some d -> model ^ " D " ^ d | None -> model); oracle }
        | _ -> failwith "histunf: doc")
